@@ -7,7 +7,7 @@ import models
 
 
 def opt_str(s):
-    return models.none() if s is None else models.some(StrV(s) if isinstance(s, str) else s)
+    return models.none() if s is None else models.some(StrV(s) if isinstance(s, (str, z3.ExprRef)) else s)
 
 
 def mk_csi_methods(I, methods):
